@@ -209,6 +209,7 @@ fn gen_scenario(kind: Kind, w: &mut W) -> Scenario {
     // scale swarm: most worlds are small; one in sixteen has dozens of connections, one in
     // sixteen has one connection with a long call history, one in sixteen (C10) long streams
     let scale = t.draw(16);
+    let mut wide_streams = false;
     match kind {
         Kind::C10 if scale == 11 && t.draw(16) == 15 => {
             // *Width*: several hundred connections parked in open reply streams at the same time
@@ -216,9 +217,11 @@ fn gen_scenario(kind: Kind, w: &mut W) -> Scenario {
             // subscriber is owed its items wherever it sits in that list; a few plain callers talk
             // meanwhile.
             let n_sub = 257 + t.draw(160);
+            wide_streams = true;
             for c in 0..n_sub {
-                let items = 1 + t.draw(2);
-                let mut calls = vec![CallSpec::Stream { flags: vec![0; items], ends: t.draw(2) == 1 }];
+                let items = 1 + t.draw(3);
+                // (most of them never end, so that they really are all open at the same time)
+                let mut calls = vec![CallSpec::Stream { flags: vec![0; items], ends: t.draw(8) == 0 }];
                 if t.draw(4) == 0 {
                     calls.push(CallSpec::Echo { pad: 2, oneway: false });
                 }
@@ -517,6 +520,9 @@ fn gen_scenario(kind: Kind, w: &mut W) -> Scenario {
         }
     }
     w.svc_variant = variant;
+    if wide_streams {
+        w.stat("worlds_with_hundreds_of_open_reply_streams");
+    }
     let mode = format!("seeded cfg={:?} service_suspends={suspends} stream_size_hint={} stream_gate={stream_gate:?} stream_flood={stream_flood:?} service_instantiation={variant}", w.cfg, w.stream_size_hint);
     Scenario { stream_flood, stream_gate, yield_first, clients, late, singles, suspends, mode, real }
 }
